@@ -456,4 +456,79 @@ theorem ccyAmt_value_preserved (pos : Bool) (s : Text) (v : CcyAmt) (h : CcyAmt.
   · cases h
   · cases h
 
+/-- 32A / 32C / 32D: the amount part that is written denotes the amount that was read -/
+theorem dateCcyAmt_value_preserved (s : Text) (v : DateCcyAmt) (h : DateCcyAmt.parse s = .ok v) :
+    ∃ d', parseAmount (formatAmount v.amt.normalize (currencyDecimals v.ccy)) = some d' ∧ d'.eqv v.amt := by
+  unfold DateCcyAmt.parse at h
+  split at h; · cases h
+  split at h; · cases h
+  split at h
+  · cases h
+  · split at h
+    · rename_i ccy hc
+      split at h
+      · rename_i a ha
+        cases h
+        unfold amountPart at ha
+        split at ha; · cases ha
+        split at ha
+        · rename_i d0 hp
+          split at ha
+          · cases ha
+          · cases ha; exact written_amount_is_the_same_number _ _ _ hp
+        · cases ha
+      · cases h
+      · cases h
+    · cases h
+    · cases h
+
+/-- the balances 60F, 60M, 62F, 62M, 64, 65 -/
+theorem balance_value_preserved (s : Text) (v : Balance) (h : Balance.parse s = .ok v) :
+    ∃ d', parseAmount (formatAmount v.amt.normalize (currencyDecimals v.ccy)) = some d' ∧ d'.eqv v.amt := by
+  unfold Balance.parse at h
+  split at h; · cases h
+  split at h; · cases h
+  simp only at h
+  split at h; · cases h
+  split at h
+  · cases h
+  · split at h
+    · rename_i ccy hc
+      split at h
+      · rename_i a ha
+        cases h
+        exact written_amount_is_the_same_number _ _ _ ha
+      · cases h
+    · cases h
+    · cases h
+
+theorem amountPart_some (a ccy : Text) (pos : Bool) (d : Dec) (h : amountPart a ccy pos = .ok d) :
+    parseAmountWithCurrency a ccy = some d := by
+  unfold amountPart at h
+  split at h; · cases h
+  split at h
+  · rename_i d0 hp
+    split at h
+    · cases h
+    · cases h; exact hp
+  · cases h
+
+/-- 34F -/
+theorem f34F_value_preserved (s : Text) (v : F34F) (h : F34F.parse s = .ok v) :
+    ∃ d', parseAmount (formatAmount v.amt.normalize (currencyDecimals v.ccy)) = some d' ∧ d'.eqv v.amt := by
+  unfold F34F.parse at h
+  split at h; · cases h
+  split at h; · cases h
+  split at h
+  · rename_i ccy hc
+    simp only at h
+    split at h
+    · rename_i d hd
+      cases h
+      exact written_amount_is_the_same_number _ _ _ (amountPart_some _ _ _ _ hd)
+    · cases h
+    · cases h
+  · cases h
+  · cases h
+
 end SwiftMT.Props.C06
